@@ -58,6 +58,7 @@ struct Op {
   bool tool_dry = false;     // -n given to a clean tool
   bool dry_run = false;
   RunConfig cfg;             // faults, interrupts, edits during, env
+  bool expect_error = false; // the invocation must fail with an error (C11 invalid dyndep files)
   bool crash = false;        // additionally enumerate every crash point of every schedule of this invocation
   bool no_expand = false;    // successor worlds of this op are checked but not expanded further
 };
@@ -67,6 +68,7 @@ struct Scenario {
   std::map<std::string, std::string> files;   // initial files besides the manifest of variant 0
   std::vector<std::string> dirs;
   std::vector<Variant> variants;
+  std::vector<Variant> twin_variants;        // metamorphic twin (C10/C11): same statements, information declared in the manifest
   std::vector<Op> ops;
   std::vector<int> init;                      // ops applied before exploration starts (default schedule)
   int depth = 2;
